@@ -22,7 +22,7 @@ from pathlib import Path
 
 import common
 import impl
-from props import c13walk
+from props import c13links, c13walk
 
 from rattr.config.state import enter_file
 from rattr.module_locator import util as U
@@ -37,6 +37,7 @@ MISSING = "zz"
 SIG_MEMO = "memo-clash:module-and-package-share-dotted-name"
 SIG_STDLIB = "stdlib-named-local-module-not-located"
 SIG_NSDIR = "module-shadowed-by-non-package-directory"
+SIG_PYPKG = "package-named-py-loses-its-last-component"
 
 # fixed second search root (appended to sys.path) used by the two-root configurations
 ROOT2_FILES = [["pa.py"], ["pb", "__init__.py"], ["pb", "ma.py"], ["zq.py"]]
@@ -101,6 +102,8 @@ EXTRA_TREES = [
     [["pa.py"], ["pa", "mb.py"]],
     [["pa", "__init__.py"], ["pa", "pb.py"], ["pa", "pb", "notes.txt"], ["pa", "ma.py"]],
     [["pb", "ma.py"]],
+    # a package whose own name is `py` (found through the model: `longestName` strips ".__init__.py", then ".py")
+    [["pa", "__init__.py"], ["pa", "py", "__init__.py"], ["pa", "py", "ma.py"], ["pa", "ma.py"]],
 ]
 
 
@@ -187,6 +190,7 @@ class World:
             p.write_text("")
         self.current = None
         self._facts = {}
+        self._resolved = {}
 
     def close(self):
         shutil.rmtree(self.base, ignore_errors=True)
@@ -234,8 +238,12 @@ class World:
         if origin is None:
             return None
         s = str(origin)
-        for i, r in enumerate(roots):
-            rs = str(r.resolve())
+        key = tuple(str(r) for r in roots)
+        resolved = self._resolved.get(key)
+        if resolved is None:
+            # the search roots themselves stay put while the trees below them change
+            resolved = self._resolved[key] = [str(r.resolve()) for r in roots]
+        for i, rs in enumerate(resolved):
             if s.startswith(rs + os.sep):
                 return {"file": [i, list(Path(s).relative_to(rs).parts)]}
         return {"ext": s}
@@ -355,11 +363,25 @@ def run_impl_op(world, o, roots):
 
 # ------------------------------------------------------------------ independent oracles
 
+_FS_MEMO = [None]      # a dict while one tree is being judged (the file system does not change meanwhile)
+
+
 def fs_first_match(roots, name):
     """(root index, relative file) CPython's path finder would pick for a dotted name: first root,
     package before module; judged by the file system itself."""
     if not name or any(c == "" for c in name):
         return None
+    memo = _FS_MEMO[0]
+    if memo is not None:
+        key = tuple(name)
+        if key not in memo:
+            memo[key] = _fs_first_match(roots, name)
+        m = memo[key]
+        return None if m is None else [m[0], list(m[1])]
+    return _fs_first_match(roots, name)
+
+
+def _fs_first_match(roots, name):
     for i, r in enumerate(roots):
         pk = r.joinpath(*name, "__init__.py")
         if pk.is_file():
@@ -401,6 +423,8 @@ def classify_locate(world, roots, name, match):
         return SIG_STDLIB
     if nsdir_shadow(roots, match):
         return SIG_NSDIR
+    if name[-1] == "py" and match[1][-1] == "__init__.py":
+        return SIG_PYPKG
     return None
 
 
@@ -413,6 +437,7 @@ def run_tree(world, files, two, ops, res, model_out, case_base):
     session_seen = []   # (key, isInit) of the session's earlier calls
     if two:
         sys.path.append(str(world.r2))
+    _FS_MEMO[0] = {}
     try:
         with impl.in_dir(str(world.tree)):
             impl.reset_config(target=Path("target.py"))
@@ -427,6 +452,7 @@ def run_tree(world, files, two, ops, res, model_out, case_base):
                     res.sample({"case": case, "impl": im})
                 judge(world, roots, o, im, mo, case, res, session_seen)
     finally:
+        _FS_MEMO[0] = None
         if two:
             sys.path.remove(str(world.r2))
 
@@ -609,8 +635,16 @@ def run(tier, seed, build):
                 "exhaustive for depth 3 with one top-level entry, plus seeded random depth-3 trees; per tree every "
                 "(importing file, level 1..depth+2, target in None + every suffix of a tree name + missing) triple, "
                 "every qualified name (tree names, +member suffixes, missing, empty, dotted-leading), every file "
-                "(relative and absolute path) and one shuffled session through a single cache. "
-                "non-trivial = distinct (tree, search roots, op)")
+                "(relative and absolute path) and one shuffled session through a single cache; "
+                "end-to-end walk: projects for every way a file is reached x relative-import level x form, in-process "
+                "and through the CLI, a stratified selection of them realised behind symbolic links; "
+                "symbolic-link stage: every link kind (package directory / sub-package / nested / module file / "
+                "__init__.py linked off the search path, into another search root, aliased inside the tree, chained, "
+                "absolute target, dangling, search root and second root spelled through a link) on a base tree + "
+                "seeded random combinations, per layout every file (relative, below the spelled root, below the "
+                "resolved root), every name, every located file entered as a followed import and as a star import "
+                "x relative-import level x target. "
+                "non-trivial = distinct (tree / layout, search roots, op)")
     rng = random.Random(seed)
     world = World()
     try:
@@ -628,6 +662,8 @@ def run(tier, seed, build):
             seen.add(key)
             ops = make_ops(files, random.Random(seed * 1000003 + len(work)), tier)
             work.append((kind, files, two, ops))
+        import time
+        marks = [("start", time.time(), time.process_time())]
         model = common.Model()
         # search-root check: the order handed to the model is the order the implementation iterates
         with impl.in_dir(str(world.tree)):
@@ -656,8 +692,15 @@ def run(tier, seed, build):
             res.count("tree:" + kind)
             res.count("files:" + str(len(files)))
             run_tree(world, files, two, ops, res, mo, {"tree": files, "two_roots": two})
+        marks.append(("trees", time.time(), time.process_time()))
         # end-to-end stage: which file a relative import is resolved against (every way a file is reached)
         c13walk.run_stage(world, res, tier, seed, model, py_resolve, fs_first_match, U.is_in_stdlib)
+        marks.append(("walk", time.time(), time.process_time()))
+        # symbolic links on the search path: located origins, file <-> name round trips, followed / starred files
+        c13links.run_stage(sys.modules[__name__], world, res, tier, seed, model)
+        marks.append(("links", time.time(), time.process_time()))
+        res.extra["stage_seconds_wall_cpu"] = {b[0]: [round(b[1] - a[1], 1), round(b[2] - a[2], 1)]
+                                               for a, b in zip(marks, marks[1:])}
         res.extra["exhaustive"] = True
         res.extra["trees"] = len(work)
     finally:
@@ -668,7 +711,9 @@ def run(tier, seed, build):
         "[interp] the search order is the documented one: sys.path[0] (cwd), rattr's own root, sys.path[1:]",
         "[interp] the round trip is required only of a file that is the first match of its own dotted name",
         "stdlib classification (isort.place_module) and the stdlib finder are per-case inputs to the model, taken from the real functions; 'json' is imported before any case runs, as it is in the rattr CLI",
-        "namespace packages, .pth files, zip imports, symlinks are not represented",
+        "namespace packages, .pth files, zip imports are not represented",
+        "[interp] symbolic links: 'locates that same file' = the located origin is the path AS SPELLED below the resolved search root (realpath(root)/a/b.py), not merely a path to the same inode; a file reached through a link is the module Python imports it as (links are followed by is_file/is_dir, the import system keys modules by the path they were found under); `Path.resolve()` enters the model as a link table checked against os.path.realpath on every path it is applied to",
+        "symbolic-link stages: link loops, links to a parent directory, and (end-to-end stage only) two links leading to one file are kept out of the generated layouts",
         "[interp] end-to-end stage: an Import symbol's qualified name is rattr's statement of the module the import resolved to; the statement a symbol derives from is identified by its (project-unique) line number, the file actually read by its marker function; a star import may only deliver names bound at module level of the module Python resolves it to",
         "[interp] an escaping relative import counts as diagnosed when an error/fatal diagnostic is raised at its line; a valid one whose module exists must raise none and must not end the run in the resolver's AssertionError/ValueError",
         "end-to-end stage: `from a.b import *` outside an __init__.py (rattr raises ValueError while wording the warning) is kept out of the generated projects except with a one-component module",
@@ -684,6 +729,12 @@ def replay(path):
         world = World()
         try:
             return c13walk.replay_case(world, case, py_resolve, fs_first_match)
+        finally:
+            world.close()
+    if case and case.get("stage") == "links":
+        world = World()
+        try:
+            return c13links.replay_case(sys.modules[__name__], world, case)
         finally:
             world.close()
     if not case or "tree" not in case:
